@@ -681,6 +681,11 @@ def gen_null(r, cases, thorough):
                 tail += r.choice([[smsg(r, victim)], [smsg(r, victim, pgn=60928, n=8)], [smsg(r, 0)], [iso_request(50, 255, r.choice([60928, 126996]))], ['P'],
                                   ['T %d' % r.choice([100, 251])], ['C %d' % victim], [iso_request(50, 254, 60928), 'P'], ['F']])
             cases.append(cfg(mode, ndev, src, t0=r.choice(T0S)) + ' | ' + ' ; '.join(ops + tail + ['P']))
+            # ... and the same with a fixed tail: the window after the "cannot claim" announcement expires, then the application sends from
+            # the device at the null address (source field of the message valid / above 251), the heartbeat comes due, requests arrive
+            fixed = ['T 251', 'P', smsg(r, victim, pgn=127250, n=8, src=15), smsg(r, victim, pgn=129029, n=20, src=252), smsg(r, victim, pgn=60928, n=8, src=15),
+                     iso_request(50, 255, 126996), 'P', 'T 61000', 'P', 'T 60000', 'P', smsg(r, victim, pgn=127250, n=8, src=0), smsg(r, 0, pgn=127250, n=8, src=15), 'P']
+            cases.append(cfg(mode, ndev, src, t0=r.choice(T0S), hb=True) + ' | ' + ' ; '.join(ops + fixed))
 
 
 def gen_backpressure(r, cases, thorough):
